@@ -266,6 +266,9 @@ func (eng *Engine) checkProperty(id, tier string, timeoutFlag, workers int, keep
 			engineErrs = append(engineErrs, fmt.Sprintf("%s: %s", fr.Fn, fr.Err))
 		}
 	}
+	deadReturns := map[string]int{}
+	liveReturns := map[string]int{}
+	var deadList []string
 	for _, r := range run.results {
 		solverTime += r.Time
 		if r.Time > maxTime {
@@ -274,7 +277,16 @@ func (eng *Engine) checkProperty(id, tier string, timeoutFlag, workers int, keep
 		slow = append(slow, slowT{r.Obl.name, r.Time})
 		if r.Obl.probe {
 			if r.Status == "proved" {
-				engineErrs = append(engineErrs, "vacuity: reachability probe is provable: "+r.Obl.name)
+				if strings.Contains(r.Obl.name, ":PROBE:return-reachable:") {
+					// a single return that is dead under the stated assumptions (e.g. a nil check on a parameter assumed
+					// non-nil) is not a vacuity of the function; it becomes one if no return at all is reachable
+					deadReturns[r.Obl.fn]++
+					deadList = append(deadList, r.Obl.name)
+				} else {
+					engineErrs = append(engineErrs, "vacuity: reachability probe is provable: "+r.Obl.name)
+				}
+			} else if strings.Contains(r.Obl.name, ":PROBE:return-reachable:") {
+				liveReturns[r.Obl.fn]++
 			}
 			continue
 		}
@@ -343,6 +355,12 @@ func (eng *Engine) checkProperty(id, tier string, timeoutFlag, workers int, keep
 		os.WriteFile(filepath.Join(eng.verifDir, "unclaimed.json"), b, 0o644)
 		fmt.Printf("wrote %d unclaimed entries\n", len(rest))
 	}
+	for fn, n := range deadReturns {
+		if n > 0 && liveReturns[fn] == 0 {
+			engineErrs = append(engineErrs, fmt.Sprintf("vacuity: no return of %s is reachable under its assumptions", fn))
+		}
+	}
+	sort.Strings(deadList)
 	sort.Slice(slow, func(i, j int) bool { return slow[i].t > slow[j].t })
 	if len(slow) > 10 {
 		slow = slow[:10]
@@ -471,6 +489,7 @@ func (eng *Engine) checkProperty(id, tier string, timeoutFlag, workers int, keep
 			"samples":              samples,
 			"known_findings":       klist,
 			"unclaimed_obligations": unclaimedHit,
+			"returns_unreachable_under_assumptions": deadList,
 			"violations":           vlist,
 			"engine_errors":        engineErrs,
 			"unmodelled_or_havoced": notes,
